@@ -21,7 +21,7 @@ Terms(sel) == CASE sel = "ase-only" -> {"beat"} [] sel = "thermal-only" -> {"the
                 [] sel = "ase-thermal" -> {"beat", "thermal"} [] sel = "ase-shot" -> {"beat", "shot"}
                 [] sel = "thermal-shot" -> {"thermal", "shot"} [] sel = "all" -> {"beat", "thermal", "shot"}
 \* ---- argument verdicts (one fault at a time)
-Verdict(fault) == CASE fault = "none" -> "ok"
+Verdict(fault) == CASE fault \in {"none", "T-zero", "T-zero-int", "r-one", "idark-zero", "selection-mixed-case"} -> "ok"    \* boundary values inside the domain
    [] fault \in {"input-electrical", "input-ndarray", "r-str", "T-str", "Rload-str", "include-noise-int", "r-list"} -> "TypeError"
    [] fault \in {"r-zero", "r-negative", "r-above-1", "T-negative", "Rload-negative", "include-noise-unknown", "include-noise-empty"} -> "ValueError"
 =============================================================================
